@@ -16,6 +16,11 @@ import KcpVerif.Lemmas.SysDrainReturn2
 import KcpVerif.Lemmas.SysDrainTimer2
 import KcpVerif.Lemmas.SysDrainHead3
 import KcpVerif.Lemmas.SysDrainOrder
+import KcpVerif.Lemmas.SysDrainHead4
+import KcpVerif.Lemmas.SysDrainAll
+import KcpVerif.Lemmas.SysDrainFull
+import KcpVerif.Lemmas.SysDrainFull2
+import KcpVerif.Lemmas.SysDrainFair2
 /-! C02 — eventual delivery: a healed network always drains the backlog. -/
 namespace KcpVerif.Props
 open KcpVerif KcpVerif.Gen KcpVerif.Kcp KcpVerif.Live
@@ -867,7 +872,10 @@ theorem C02_phase_lost_ack {p : Par} {s : State} {gab gba : GLink} (h : Cons p s
     U < o p.base (Sys.run s evs).A.snd_una :=
   ret2_done h U T2 I ht (Or.inr hpush) evs hsm hnow
 
-/-! ### what remains of `C02_progress_step_full` / `C02_drain_full` on the repaired model
+/-! ### what remained of `C02_progress_step_full` / `C02_drain_full` on the repaired model at this point
+
+(All three items below are closed further down: `C02_progress_step_every_head`, `C02_drain_general_partial`,
+and `C03_zero_window_probe_bound` in Props/C03.lean.)
 
 Proved, for arbitrary consistent states: the invariant after any fault history
 (`C02_consistency_any_history`); phase A as a single event (`C02_phase_retx_emitted`); phases B (for a
@@ -961,7 +969,7 @@ theorem C02_phase_release_arrives {p : Par} {s : State} {t0 : Nat} {frs : List W
     (hU : U ≤ o p.base s.A.snd_una) (hrel : ∃ fr ∈ frs, Rel p.base U fr) :
     U < o p.base (Sys.step s .dlvA).A.snd_una := phase_D_rel h hnw hdue U hU hrel
 
-/-! what remains of `C02_progress_step_full` / `C02_drain_full` after this:
+/-! what remained of `C02_progress_step_full` / `C02_drain_full` after this (closed further down):
 * the hypothesis `U ≤ rcv_nxt(B)` of `P1H` follows from `Cons.arel`, the fixpoint of the move loop
   (`MoveFix`) and "the delivery queue is not full" (true at every `tick` under the fair reader) ONCE the
   order of `rcv_buf` is part of the invariant — not done;
@@ -1032,5 +1040,211 @@ example : (∃ gab gba, SysC.Cons ⟨SysC.wedgeA.snd_nxt, SysC.wedgeA.conv, 0, 0
   ⟨SysC.cons_side_netRun c02LostPush _ [] [] (SysC.cons_init _ _ 0 1000 false false (by decide))
       (SysC.side_init _ _ 0 1000 false false (by decide)) (by decide),
    by decide, by decide, by decide, by decide, by decide, ⟨by decide, by decide⟩⟩
+
+open KcpVerif.Sys KcpVerif.SysC in
+/-- **`C02_progress_step` for EVERY head**: as `C02_progress_step`, but the head may also be a segment
+that has never been sent (`xmit = 0`: admitted by an ACK-only flush) — the next FULL flush of A, at or
+before `T1`, transmits it whatever the time (take `R = now`).  `P1G`, Lemmas/SysDrainHead4.lean. -/
+theorem C02_progress_step_every_head {p : Par} {s : State} {gab gba : GLink} (h : Cons p s gab gba) (hs : Side p.base s)
+    (hq : s.B.rcv_queue.length < s.B.rcv_wnd.toNat) (x : Seg) (rest : List Seg) (hb : s.A.snd_buf = x :: rest)
+    (R T1 IA IB : Nat) (hx : x.xmit = 0 ∨ (x.xmit ≠ 0 ∧ x.resendts = clk R)) (hT : R + IA ≤ T1 ∧ T1 < R + 2 ^ 31)
+    (hiv : s.A.interval.toNat = IA) (hnf : s.nfA ≤ T1) (hnw : s.now ≤ T1) (ht : Tm IB s)
+    (evs : List Ev) (hsm : RunSmallH p.base s evs) (hnow : T1 + s.D + IB + s.D < (Sys.run s evs).now) :
+    o p.base x.sn < o p.base (Sys.run s evs).A.snd_una := by
+  have hhl : s.A.snd_una = x.sn := by
+    have := hs.live.1
+    unfold Live.HeadLive at this
+    rw [hb] at this
+    exact this.2
+  have hrb : o p.base x.sn ≤ o p.base s.B.rcv_nxt := by
+    rw [← hhl]; exact not_behind h hs.srt hs.fix hq
+  exact retG3_done h hs.live (o p.base x.sn) R T1 IA IB hT ht
+    ⟨⟨x, rest, hb, rfl, hx⟩, hiv, hnf, hnw, hrb⟩ evs hsm hnow
+
+/-! ### the drain: induction over the outstanding segments (writer stopped, send queue empty)
+
+The progress step is iterated: a stage starts at a clock tick (the scheduler ticks only when the reader
+has nothing to read, so the receive queue is not full and B is not behind A's head — `SysC.QOk` is the
+only thing asked of the reader), lasts `stageLen = Rmax + IA + D + IB + D + 1` ms, and releases the head.
+Every numbered segment is acknowledged after `|snd_buf|` stages.  Run hypotheses, each a check on single
+states (`SysC.DrainHyp`; Boolean form `SysC.runChk`): fewer than 2^30 segments and `1 ≤ rcv_wnd < 2^30`
+(`Small`), the reader condition `QOk`, and `TmrOk Rmax`: the retransmission timer of the head is never
+more than `Rmax` ms ahead of the clock — the place where the unbounded RTO backoff of a segment
+(`rto += rx_rto` at every timeout, no cap in kcp-go) enters the bound.  What is NOT covered: a non-empty
+send queue (needs the window/zero-window-probe chain, `C02_drain_full` below) and the derivation of
+`TmrOk` from a bound on the number of earlier timeouts. -/
+
+open KcpVerif.Sys KcpVerif.SysC in
+/-- **drain, last segment**: one numbered segment outstanding, nothing queued, the writer has stopped —
+after the progress-step bound `WaitSnd = 0`, for ever.  Any consistent state, no other run hypothesis
+than `RunSmallH`. -/
+theorem C02_drain_last {p : Par} {s : State} {gab gba : GLink} (h : Cons p s gab gba) (hs : Side p.base s)
+    (hq : s.B.rcv_queue.length < s.B.rcv_wnd.toNat) (x : Seg) (hb : s.A.snd_buf = [x]) (hsq : s.A.snd_queue = [])
+    (R T1 IA IB : Nat) (hx : x.xmit = 0 ∨ (x.xmit ≠ 0 ∧ x.resendts = clk R)) (hT : R + IA ≤ T1 ∧ T1 < R + 2 ^ 31)
+    (hiv : s.A.interval.toNat = IA) (hnf : s.nfA ≤ T1) (hnw : s.now ≤ T1) (ht : Tm IB s)
+    (evs : List Ev) (hns : ∀ ev ∈ evs, isSend ev = false) (hsm : RunSmallH p.base s evs)
+    (hnow : T1 + s.D + IB + s.D < (Sys.run s evs).now) :
+    (Sys.run s evs).A.waitSnd = 0 :=
+  drain_last h hs hq x hb hsq R T1 IA IB hx hT hiv hnf hnw ht evs hns hsm hnow
+
+open KcpVerif.Sys KcpVerif.SysC in
+/-- **one stage of the drain**: from a consistent state whose receive queue is not full, whatever the
+run does (the writer may go on writing), after `Rmax + IA + D + IB + D` ms the send buffer is one shorter
+than it was, up to the segments numbered in the meantime. -/
+theorem C02_drain_stage {p : Par} {IA IB Rmax : Nat} {s : State} (hi : Inv p IA IB s) (hR : Rmax + IA < 2 ^ 31)
+    (hq : s.B.rcv_queue.length < s.B.rcv_wnd.toNat) (n : Nat) (hlen : s.A.snd_buf.length ≤ n + 1)
+    (evs : List Ev) (hr : RunP (DrainHyp p Rmax IA) s evs)
+    (hnow : s.now + Rmax + IA + s.D + IB + s.D < (Sys.run s evs).now) :
+    (Sys.run s evs).A.snd_buf.length ≤ n + (o p.base (Sys.run s evs).A.snd_nxt - o p.base s.A.snd_nxt) :=
+  drain_stage hi hR hq n hlen evs hr hnow
+
+open KcpVerif.Sys KcpVerif.SysC in
+/-- **`C02_drain`, send queue empty** (the induction): two fresh endpoints, ANY history `pre` of writes,
+events and network faults (loss, duplication, reordering, delay — `netRun`); in the state `s` it leaves
+the writer stops with nothing queued and the receive queue is not full.  From then on the links are fair
+(no loss after `s`) and the reader is fair (`QOk`).  Then once the clock has advanced by
+`|snd_buf| · (Rmax + IA + D + IB + D + 1)` ms, `WaitSnd = 0`, and whenever the receive queue is not full
+the receiver has handed every numbered segment to the reader's queue (`rcv_nxt = snd_nxt`). -/
+theorem C02_drain_partial (A B : Kcp) (D t0 : Nat) (ndA ndB : Bool) (hinit : ConsInit A B) (pre : List NetEv)
+    (hpre : NetNoWrap A.snd_nxt (Sys.init A B D t0 ndA ndB) pre) (Rmax : Nat) (hR : Rmax + A.interval.toNat < 2 ^ 31)
+    (hq : (netRun (Sys.init A B D t0 ndA ndB) pre).B.rcv_queue.length <
+      (netRun (Sys.init A B D t0 ndA ndB) pre).B.rcv_wnd.toNat)
+    (hsq : (netRun (Sys.init A B D t0 ndA ndB) pre).A.snd_queue = [])
+    (evs : List Ev) (hns : ∀ ev ∈ evs, isSend ev = false)
+    (hr : RunP (DrainHyp ⟨A.snd_nxt, A.conv, 0, 0, 0⟩ Rmax A.interval.toNat) (netRun (Sys.init A B D t0 ndA ndB) pre) evs)
+    (hnow : (netRun (Sys.init A B D t0 ndA ndB) pre).now + (netRun (Sys.init A B D t0 ndA ndB) pre).A.snd_buf.length *
+      stageLen Rmax A.interval.toNat B.interval.toNat (netRun (Sys.init A B D t0 ndA ndB) pre).D ≤
+      (Sys.run (netRun (Sys.init A B D t0 ndA ndB) pre) evs).now) :
+    (Sys.run (netRun (Sys.init A B D t0 ndA ndB) pre) evs).A.waitSnd = 0 ∧
+    ((Sys.run (netRun (Sys.init A B D t0 ndA ndB) pre) evs).B.rcv_queue.length <
+        (Sys.run (netRun (Sys.init A B D t0 ndA ndB) pre) evs).B.rcv_wnd.toNat →
+      (Sys.run (netRun (Sys.init A B D t0 ndA ndB) pre) evs).B.rcv_nxt =
+        (Sys.run (netRun (Sys.init A B D t0 ndA ndB) pre) evs).A.snd_nxt) := by
+  have hi := inv_netRun pre _ (inv_init A B D t0 ndA ndB hinit) hpre
+  have hw := drain_all hR _ _ hi hq (Nat.le_refl _) hsq evs hns hr hnow
+  refine ⟨hw, fun hq' => ?_⟩
+  have hsm : RunSmallH A.snd_nxt _ evs := runP_smallH A.snd_nxt evs _ (RunP.mono (fun _ h => h.1) evs _ hr)
+  have hrn := runSmallH_noWrap A.snd_nxt evs _ hsm
+  have hi' := inv_run evs _ hi hrn
+  obtain ⟨g1, g2, hc'⟩ := hi'.cons
+  unfold Kcp.waitSnd at hw
+  generalize Sys.run (netRun (Sys.init A B D t0 ndA ndB) pre) evs = s' at *
+  have hnb : o A.snd_nxt s'.A.snd_una ≤ o A.snd_nxt s'.B.rcv_nxt := not_behind hc' hi'.side.srt hi'.side.fix hq'
+  have hcon : o A.snd_nxt s'.A.snd_una + s'.A.snd_buf.length = o A.snd_nxt s'.A.snd_nxt := hc'.acon.2
+  have hbub : o A.snd_nxt s'.B.rcv_nxt ≤ o A.snd_nxt s'.A.snd_nxt := hc'.bub
+  exact o_inj A.snd_nxt _ _ (by omega)
+
+/-- the full statement of the drain on the repaired model: ANY reachable state (in particular a
+non-empty send queue, a closed or zero remote window), fair links and a fair reader from now on ⇒ a
+bound depending on the state only after which `WaitSnd = 0`.  `C02_drain_partial` is the case "send queue
+empty"; `C02_drain_general_partial` (below) proves it for every send queue with the explicit bound
+`1 + WaitSnd · (fairStage + 2)` under two more checks on the states of the run: `TmrOk Rmax` (the timer of
+the head is never more than `Rmax` ahead — the RTO backoff of a segment is not capped in kcp-go, so a
+bound in terms of the start state alone would have to count the timeouts of every later head) and the
+window configuration `0 < snd_wnd < 2^31`, `rcv_wnd < 65536`. -/
+def C02_drain_repaired_full : Prop :=
+  ∀ (A B : Kcp) (D t0 : Nat) (ndA ndB : Bool), SysC.ConsInit A B → ∀ (pre : List SysC.NetEv),
+    SysC.NetNoWrap A.snd_nxt (Sys.init A B D t0 ndA ndB) pre →
+    ∃ T : Nat, ∀ evs : List Sys.Ev, (∀ ev ∈ evs, SysC.isSend ev = false) →
+      SysC.RunP (fun s => (SysC.Small A.snd_nxt s ∧ 0 < s.B.rcv_wnd.toNat) ∧ SysC.QOk s)
+        (SysC.netRun (Sys.init A B D t0 ndA ndB) pre) evs →
+      (SysC.netRun (Sys.init A B D t0 ndA ndB) pre).now + T ≤
+        (Sys.run (SysC.netRun (Sys.init A B D t0 ndA ndB) pre) evs).now →
+      (Sys.run (SysC.netRun (Sys.init A B D t0 ndA ndB) pre) evs).A.waitSnd = 0
+
+/-! non-vacuity of `C02_drain_partial`: two one-byte messages are written and flushed, the network loses
+both datagrams (`shuffle [] []`); then 65 rounds of "10 ticks, A flushes, deliveries, B flushes,
+deliveries, reads".  Both timers stand at t = 1200 (`rx_rto = 200`), after the timeout the RTO is 300:
+`Rmax = 300`, `stageLen = 321`, and the run lasts 650 ≥ 2 · 321 ms.  Every hypothesis is checked by
+evaluation (`runChk_sound`). -/
+
+def c02DrainPre : List SysC.NetEv := [.fair (.send [1]), .fair (.send [2]), .fair .flushA, .shuffle [] []]
+def c02DrainRound : List Sys.Ev :=
+  List.replicate 10 .tick ++ [.flushA, .dlvB, .dlvB, .flushB, .dlvA, .dlvA, .read, .read]
+def c02DrainEvs : List Sys.Ev := (List.replicate 65 c02DrainRound).flatten
+
+set_option maxRecDepth 1000000 in
+example : SysC.ConsInit c02A c02A ∧ SysC.NetNoWrap c02A.snd_nxt (Sys.init c02A c02A 0 1000) c02DrainPre ∧
+    (SysC.netRun (Sys.init c02A c02A 0 1000) c02DrainPre).A.snd_buf.length = 2 ∧
+    (SysC.netRun (Sys.init c02A c02A 0 1000) c02DrainPre).ab = [] ∧
+    (SysC.netRun (Sys.init c02A c02A 0 1000) c02DrainPre).A.snd_queue = [] ∧
+    (∀ ev ∈ c02DrainEvs, SysC.isSend ev = false) ∧
+    (SysC.netRun (Sys.init c02A c02A 0 1000) c02DrainPre).now + 2 * SysC.stageLen 300 10 10 0 ≤
+      (Sys.run (SysC.netRun (Sys.init c02A c02A 0 1000) c02DrainPre) c02DrainEvs).now := by decide
+set_option maxRecDepth 1000000 in
+example : SysC.RunP (SysC.DrainHyp ⟨c02A.snd_nxt, c02A.conv, 0, 0, 0⟩ 300 10)
+    (SysC.netRun (Sys.init c02A c02A 0 1000) c02DrainPre) c02DrainEvs :=
+  SysC.runChk_sound ⟨c02A.snd_nxt, c02A.conv, 0, 0, 0⟩ 300 10 _ _ (by decide)
+
+/-! ### the drain with a non-empty send queue (congestion control on or off), reader condition only
+
+The induction is over `WaitSnd = |snd_buf| + |snd_queue|`.  Without `Send`, `|snd_queue| + snd_nxt` is
+constant (`SysC.qn_run`), so `WaitSnd` falls exactly by the advance of `snd_una` (`SysC.wait_run`).  A
+stage starts at a clock tick — the scheduler ticks only when the reader has nothing to read, so B's
+queue is not full (`QOk`) and B is not behind A's head — and makes `snd_una` advance within `fairStage`
+(`SysC.stage_fair`):
+
+* something is outstanding: the head of the send buffer is released (`C02_progress_step_every_head`);
+* nothing is outstanding, something is queued: until A numbers a segment every PUSH still on its way
+  to B is old, so nothing but the reader changes B's receive side and its queue stays not full
+  (`SysC.qp_step`, `SysC.qp_prefix`).  Within `quietLen`: whatever was on its way to A at the start has
+  arrived (`SysC.ArrOk`, `SysC.OF`: every datagram arrives within `D`, the clock cannot pass an
+  undelivered one); one probe round makes A's `rmt_wnd` non-zero (`C03_zero_window_probe_bound`,
+  Props/C03.lean) and it stays so, every datagram on its way to A now carrying a non-zero window
+  (`SysC.freshBa_step`, `SysC.rmt_keep_step`); A numbers a segment within two flushes
+  (`SysC.flush_admits`, `SysC.adm_run`): with congestion control on, `cwnd` may be 0 at the first one (a
+  fresh core, or `cwnd` clamped to `rmt_wnd = 0` by an ACK), but every flush leaves `cwnd ≥ 1`
+  (`SysC.flush_cwnd_pos`) and with nothing outstanding no ACK changes it (`SysC.inA_cwnd`)
+  (`SysC.quiet_bounded`).  Then the new head is released.
+
+Run hypotheses, all checks on single states (`SysC.FairHyp`; Boolean form `SysC.runFairChk`): `Small`;
+`0 < rcv_wnd < 65536`; the reader condition `QOk` (a reader with nothing to read has not left the queue
+full — B's queue MAY be full between two reads); `TmrOk Rmax`: the retransmission timer of the head is
+never more than `Rmax` ms ahead — the place where the uncapped RTO backoff enters the bound; `CfgA`:
+`0 < snd_wnd < 2^31`.  Nothing is asked of the start state beyond reachability. -/
+
+open KcpVerif.Sys KcpVerif.SysC in
+/-- **one stage of the general drain** -/
+theorem C02_drain_stage_general {p : Par} {IA IB Rmax : Nat} (hIA : IA < 2 ^ 29) (hR : Rmax + IA < 2 ^ 31) {s : State}
+    (hi : Inv p IA IB s) (hpi : PInv IA s) (ha : ArrOk s) (hqB : s.B.rcv_queue.length < s.B.rcv_wnd.toNat)
+    (hw : 0 < s.A.waitSnd) (evs : List Ev) (hns : ∀ ev ∈ evs, isSend ev = false)
+    (hr : RunP (FairHyp p Rmax IA) s evs) (hnow : s.now + fairStage Rmax IA IB s.D < (Sys.run s evs).now) :
+    o p.base s.A.snd_una < o p.base (Sys.run s evs).A.snd_una :=
+  stage_fair hIA hR hi hpi ha hqB hw evs hns hr hnow
+
+open KcpVerif.Sys KcpVerif.SysC in
+/-- **`C02_drain`, any send queue, congestion control on or off, fair reader**: two fresh endpoints, ANY
+history `pre` of writes, reads, events and network faults (loss, duplication, reordering); from the
+state it leaves the writer stops, the links are fair and the reader reads whenever there is something
+to read.  Once the clock has advanced by `1 + WaitSnd · (fairStage + 2)` ms, with
+`fairStage = quietLen + 1 + (Rmax + IA + 2·D + IB)` and
+`quietLen = (D + 1) + (IKCP_PROBE_LIMIT + 2·IA + 2·D + IB + 1) + 2·IA`, `WaitSnd = 0`; and whenever B's
+queue is not full the receiver has handed every numbered segment to the reader's queue. -/
+theorem C02_drain_general_partial (A B : Kcp) (D t0 : Nat) (ndA ndB : Bool) (hinit : ConsInit A B)
+    (hpw : A.probe_wait = 0) (hIA : A.interval.toNat < 2 ^ 29) (pre : List NetEv)
+    (hpre : NetNoWrap A.snd_nxt (Sys.init A B D t0 ndA ndB) pre) (Rmax : Nat) (hR : Rmax + A.interval.toNat < 2 ^ 31)
+    (evs : List Ev) (hns : ∀ ev ∈ evs, isSend ev = false)
+    (hr : RunP (FairHyp ⟨A.snd_nxt, A.conv, 0, 0, 0⟩ Rmax A.interval.toNat) (netRun (Sys.init A B D t0 ndA ndB) pre) evs)
+    (hnow : (netRun (Sys.init A B D t0 ndA ndB) pre).now + 1 + (netRun (Sys.init A B D t0 ndA ndB) pre).A.waitSnd *
+      (fairStage Rmax A.interval.toNat B.interval.toNat (netRun (Sys.init A B D t0 ndA ndB) pre).D + 2) ≤
+      (Sys.run (netRun (Sys.init A B D t0 ndA ndB) pre) evs).now) :
+    (Sys.run (netRun (Sys.init A B D t0 ndA ndB) pre) evs).A.waitSnd = 0 ∧
+    ((Sys.run (netRun (Sys.init A B D t0 ndA ndB) pre) evs).B.rcv_queue.length <
+        (Sys.run (netRun (Sys.init A B D t0 ndA ndB) pre) evs).B.rcv_wnd.toNat →
+      (Sys.run (netRun (Sys.init A B D t0 ndA ndB) pre) evs).B.rcv_nxt =
+        (Sys.run (netRun (Sys.init A B D t0 ndA ndB) pre) evs).A.snd_nxt) := by
+  obtain ⟨hi, hpi⟩ := inv_pinv_netRun (by omega) pre _ (inv_init A B D t0 ndA ndB hinit)
+    (pinv_init A B D t0 ndA ndB hpw) hpre
+  have ha := arrOk_netRun pre _ (arrOk_init A B D t0 ndA ndB)
+  have hw := drain_fair_any hIA hR hi hpi ha evs hns hr hnow
+  refine ⟨hw, fun hq' => ?_⟩
+  have hi' := inv_run evs _ hi (fair_noWrap evs _ hr)
+  obtain ⟨g1, g2, hc'⟩ := hi'.cons
+  unfold Kcp.waitSnd at hw
+  generalize Sys.run (netRun (Sys.init A B D t0 ndA ndB) pre) evs = s' at *
+  have hnb : o A.snd_nxt s'.A.snd_una ≤ o A.snd_nxt s'.B.rcv_nxt := not_behind hc' hi'.side.srt hi'.side.fix hq'
+  have hcon : o A.snd_nxt s'.A.snd_una + s'.A.snd_buf.length = o A.snd_nxt s'.A.snd_nxt := hc'.acon.2
+  have hbub : o A.snd_nxt s'.B.rcv_nxt ≤ o A.snd_nxt s'.A.snd_nxt := hc'.bub
+  exact o_inj A.snd_nxt _ _ (by omega)
 
 end KcpVerif.Props
